@@ -745,6 +745,53 @@ func (g *c17CGen) includeTree(root string) (files []c17File, entry string, inclu
 	return
 }
 
+// Directed scenarios for the resolution of RELATIVE include paths: Merger resolves every relative
+// include against the ENTRY file's directory (m.entryDir), also when the including file itself lives
+// in a sub-directory.  Each tree has same-named files in both places with different content, so a
+// resolution against the including file's directory changes the merged result or the error.
+type c17Directed struct {
+	name     string
+	files    map[string]string // rel path -> content
+	entryRel string
+	incVals  []string // every include value written in the tree (for the glob oracle)
+}
+
+func c17DirectedTrees(root string) []c17Directed {
+	n := func(tag string) string { return "node {\n  " + tag + ": 'x'\n}\n" }
+	inc := func(vals ...string) string {
+		out := "include {\n"
+		for _, v := range vals {
+			out += "  '" + v + "'\n"
+		}
+		return out + "}\n"
+	}
+	abs := filepath.Join(root, "sub", "d.dae")
+	return []c17Directed{
+		{"nested-relative", map[string]string{"config.dae": inc("sub/c.dae") + n("from_config"), "sub/c.dae": inc("d.dae") + n("from_c"),
+			"d.dae": n("root_d"), "sub/d.dae": n("sub_d")}, "config.dae", []string{"sub/c.dae", "d.dae"}},
+		{"nested-relative-subpath", map[string]string{"config.dae": inc("sub/c.dae") + n("from_config"), "sub/c.dae": inc("sub/d.dae") + n("from_c"),
+			"d.dae": n("root_d"), "sub/d.dae": n("sub_d"), "sub/sub/d.dae": n("subsub_d")}, "config.dae", []string{"sub/c.dae", "sub/d.dae"}},
+		{"nested-dot", map[string]string{"config.dae": inc("sub/c.dae"), "sub/c.dae": inc("./d.dae") + n("from_c"),
+			"d.dae": n("root_d"), "sub/d.dae": n("sub_d")}, "config.dae", []string{"sub/c.dae", "./d.dae"}},
+		{"nested-dotdot-escapes", map[string]string{"config.dae": inc("sub/c.dae"), "sub/c.dae": inc("../outside.dae") + n("from_c"),
+			"outside.dae": n("root_outside")}, "config.dae", []string{"sub/c.dae", "../outside.dae"}},
+		{"nested-glob", map[string]string{"config.dae": inc("sub/c.dae") + n("from_config"), "sub/c.dae": inc("[ab].dae") + n("from_c"),
+			"a.dae": n("root_a"), "b.dae": n("root_b"), "sub/a.dae": n("sub_a"), "sub/b.dae": n("sub_b")}, "config.dae", []string{"sub/c.dae", "[ab].dae"}},
+		{"nested-glob-cycle", map[string]string{"config.dae": inc("sub/c.dae"), "sub/c.dae": inc("*.dae") + n("from_c"),
+			"sub/d.dae": n("sub_d")}, "config.dae", []string{"sub/c.dae", "*.dae"}},
+		{"nested-absolute", map[string]string{"config.dae": inc("sub/c.dae"), "sub/c.dae": inc(abs) + n("from_c"),
+			"d.dae": n("root_d"), "sub/d.dae": n("sub_d")}, "config.dae", []string{"sub/c.dae", abs}},
+		{"three-levels", map[string]string{"config.dae": inc("sub/c.dae") + n("from_config"), "sub/c.dae": inc("sub/deep/e.dae") + n("from_c"),
+			"sub/deep/e.dae": inc("a.dae") + n("from_e"), "a.dae": n("root_a"), "sub/a.dae": n("sub_a"), "sub/deep/a.dae": n("deep_a")},
+			"config.dae", []string{"sub/c.dae", "sub/deep/e.dae", "a.dae"}},
+		{"entry-in-subdir", map[string]string{"sub/c.dae": inc("d.dae", "deep/e.dae") + n("from_c"), "sub/d.dae": n("sub_d"), "d.dae": n("root_d"),
+			"sub/deep/e.dae": inc("z.dae") + n("from_e"), "sub/z.dae": n("sub_z"), "sub/deep/z.dae": n("deep_z"), "z.dae": n("root_z")},
+			"sub/c.dae", []string{"d.dae", "deep/e.dae", "z.dae"}},
+		{"entry-in-subdir-parent", map[string]string{"sub/c.dae": inc("../d.dae") + n("from_c"), "d.dae": n("root_d")},
+			"sub/c.dae", []string{"../d.dae"}},
+	}
+}
+
 func c17MergeErrClass(err error) string {
 	msg := err.Error()
 	for _, m := range [][2]string{
@@ -881,9 +928,25 @@ func TestVerifC17Config(t *testing.T) {
 		t.Fatal(err)
 	}
 	defer os.RemoveAll(base)
-	for i := 0; i < nm; i++ {
+	nDirected := 0
+	if shard == 0 {
+		nDirected = len(c17DirectedTrees("/x"))
+	}
+	for i := 0; i < nDirected+nm; i++ {
 		root := filepath.Join(base, fmt.Sprintf("t%d", i), "etc")
-		files, entry, incVals := g.includeTree(root)
+		var files []c17File
+		var entry string
+		var incVals []string
+		if i < nDirected {
+			d := c17DirectedTrees(root)[i]
+			for rel, content := range d.files {
+				files = append(files, c17File{rel: rel, perm: 0o600, content: content})
+			}
+			entry, incVals = filepath.Join(root, d.entryRel), d.incVals
+			stats.Inc("inc.directed." + d.name)
+		} else {
+			files, entry, incVals = g.includeTree(root)
+		}
 		_ = os.MkdirAll(root, 0o750)
 		_ = os.WriteFile(filepath.Join(filepath.Dir(root), "outside.dae"), []byte("node { outside }\n"), 0o600)
 		for _, f := range files {
@@ -956,7 +1019,7 @@ func TestVerifC17Config(t *testing.T) {
 			stats.Add("inc.files-merged", strings.Count(out, ",")+1)
 		}
 		stats.Inc("inc.result." + cls)
-		if i < 2 && shard == 0 {
+		if i < nDirected+2 && shard == 0 {
 			stats.Sample("merge: " + out)
 		}
 		st.Emit(fmt.Sprintf("m %s F %d %s G %d %s", c17H(entry), nFiles, strings.Join(fw, " "), nGlobs, strings.Join(gw, " ")), out)
